@@ -571,3 +571,9 @@ EXPR_HANDLERS = {}
 
 def _default_expr_handler(ctx, me, args, st):
     return None
+
+
+def io_models():
+    def m_sink(ctx, args, st):
+        return ret(st, SinkEnv('NULLSINK', may_fail=False, may_short=False).abs())
+    return [(r'^(?:std::io::)?sink$', m_sink, 'model:std::io::sink (discarding writer)')]
